@@ -209,6 +209,71 @@ def run(ctx, rep):
         rep.violation('B3', vkey('B3', extra[0], 'cursor-mover', ''), f0.loc(f0.span),
                       'the file cursor is assigned outside read / write / seek: ' + ', '.join(extra))
 
+    # ---------------- B7 the cluster remembered after a transfer is the one the transfer was made in
+    # (offset, current_cluster) is one cursor: offset moves by the device's count inside the cluster that was addressed,
+    # so the cluster stored afterwards is the addressed one - or is computed from the device's count
+    n_b7 = 0
+    for fn, kind in ((R, 'R'), (W, 'W')):
+        d = Deps(fn)
+        devb = {b for b, t in dev_calls(fn, eff, kind)}
+        defs = single_def(fn)
+
+        def root(o, depth=0):
+            p = op_place(o)
+            if p is None or p['p'] or depth > 12:
+                return None
+            dd = defs.get(p['l'])
+            if dd is not None and dd[0] == 'stmt':
+                rv = dd[1]
+                if rv['k'] == 'use' and op_place(rv['a']) is not None and not op_place(rv['a'])['p']:
+                    return root(rv['a'], depth + 1)
+                if rv['k'] == 'agg' and len(rv.get('ops', [])) == 1:
+                    return root(rv['ops'][0], depth + 1)
+            return p['l']
+
+        addressed = set()
+        for b, t in fn.calls():
+            if (t.get('callee') or '').endswith('FileSystem::offset_from_cluster') and len(t['args']) > 1:
+                r0 = root(t['args'][1])
+                if r0 is not None:
+                    addressed.add(r0)
+        after_dev = fn.reach_from(devb)
+        for bi in sorted(fn.reachable()):
+            for s in fn.blocks[bi]['stmts']:
+                if s['k'] != 'assign' or not s['lhs']['p']:
+                    continue
+                names = [e.get('n') for e in s['lhs']['p'] if 'f' in e]
+                if names[-1:] != ['current_cluster'] or bi not in after_dev:
+                    continue
+                if s['rv']['k'] not in ('use', 'agg'):
+                    continue
+                o = s['rv']['a'] if s['rv']['k'] == 'use' else (s['rv'].get('ops') or [None])[0]
+                if o is None:
+                    continue
+                n_b7 += 1
+                r1 = root(o)
+                # data dependence on the device's count, not followed through `self` (everything hangs off it)
+                seen_l, st, from_count = set(), [op_place(o)['l']], False
+                while st and not from_count:
+                    x = st.pop()
+                    if x in seen_l or x <= fn.argc:
+                        continue
+                    seen_l.add(x)
+                    for tk in d.direct.get(x, ()):
+                        if tk[0] == 'callsite' and tk[1] in devb:
+                            from_count = True
+                        elif tk[0] == 'local':
+                            st.append(tk[1])
+                ok = (r1 is not None and r1 in addressed) or from_count
+                rep.oblige('B7', '%s|bb%d' % (fn.name, bi), ok=ok, nontrivial=True,
+                           sample={'fn': fn.name, 'at': fn.loc(s['span']), 'expr': s['span']['snip'][:60]})
+                if not ok:
+                    rep.violation('B7', vkey('B7', fn.name, 'cursor-cluster', ''), fn.loc(s['span']),
+                                  'the cluster %s remembers after the transfer is neither the cluster whose offset was handed to the '
+                                  'device nor computed from the count the device returned: after a short transfer the cursor '
+                                  '(offset, cluster) is incoherent' % fn.name)
+    rep.counts['B7.sites'] = n_b7
+
     # ---------------- B4 size only grows, to the cursor
     d = Deps(U)
     sets = [(b, t) for b, t in U.calls() if (t.get('callee') or '').endswith('DirEntryEditor::set_size')]
